@@ -4,6 +4,7 @@ import (
 	"encoding/json"
 	"fmt"
 	"go/ast"
+	"go/token"
 	"go/types"
 	"os"
 	"path/filepath"
@@ -36,6 +37,12 @@ type anchorErr struct{ what string }
 
 // Ctx is the state of one property run.
 type Ctx struct {
+	// inRule: a rule body is running. tolerant: second pass after a shared anchor failed to resolve (see partial.go):
+	// lookups outside rule bodies hand out placeholders, rules that depend on one are skipped (skip: rule id -> reason)
+	inRule    bool
+	tolerant  bool
+	missing   []string
+	skip      map[string]string
 	P         *Prog
 	Prop      string
 	Tier      string
@@ -61,6 +68,12 @@ func newCtx(p *Prog, prop, tier string) *Ctx {
 func (c *Ctx) Rule(id, doc string, body func()) {
 	c.rule = id
 	c.ruleDocs[id] = doc
+	if why, skipped := c.skip[id]; skipped {
+		c.add(id, "anchor:"+why, "", vAnchor, "the construct that carried this guarantee is gone or renamed: "+why+" (an anchor this rule reads; the rules of the property that do not read it were applied)")
+		return
+	}
+	c.inRule = true
+	defer func() { c.inRule = false }()
 	defer func() {
 		if r := recover(); r != nil {
 			if a, ok := r.(anchorErr); ok {
@@ -193,6 +206,10 @@ func (c *Ctx) Fn(rel, recv, name string) *Func {
 		if recv != "" {
 			w = rel + ".(" + recv + ")." + name
 		}
+		if c.tolerant && !c.inRule {
+			c.missing = append(c.missing, "function "+w)
+			return &Func{Prog: c.P, name: "<missing " + w + ">"}
+		}
 		panic(anchorErr{"function " + w})
 	}
 	return c.touch(f)
@@ -201,6 +218,10 @@ func (c *Ctx) Fn(rel, recv, name string) *Func {
 func (c *Ctx) FnObj(rel, recv, name string) *funcObj {
 	o := c.P.LookupFuncObj(rel, recv, name)
 	if o == nil {
+		if c.tolerant && !c.inRule {
+			c.missing = append(c.missing, "function object "+rel+"."+recv+"."+name)
+			return types.NewFunc(token.NoPos, nil, "<missing>", types.NewSignatureType(nil, nil, nil, nil, nil, false))
+		}
 		panic(anchorErr{"function object " + rel + "." + recv + "." + name})
 	}
 	return o
@@ -209,6 +230,10 @@ func (c *Ctx) FnObj(rel, recv, name string) *funcObj {
 func (c *Ctx) Field(rel, typ, field string) *fieldObj {
 	v := c.P.LookupField(rel, typ, field)
 	if v == nil {
+		if c.tolerant && !c.inRule {
+			c.missing = append(c.missing, "field "+rel+"."+typ+"."+field)
+			return types.NewField(token.NoPos, nil, "<missing>", types.Typ[types.Invalid], false)
+		}
 		panic(anchorErr{"field " + rel + "." + typ + "." + field})
 	}
 	return v
@@ -217,6 +242,10 @@ func (c *Ctx) Field(rel, typ, field string) *fieldObj {
 func (c *Ctx) Obj(rel, name string) objT {
 	o := c.P.LookupObj(rel, name)
 	if o == nil {
+		if c.tolerant && !c.inRule {
+			c.missing = append(c.missing, "object "+rel+"."+name)
+			return types.NewVar(token.NoPos, nil, "<missing>", types.Typ[types.Invalid])
+		}
 		panic(anchorErr{"object " + rel + "." + name})
 	}
 	return o
